@@ -3,7 +3,8 @@
 Spec: the reference machine (LangDyn) executes every statement; a plan is a skip set (cfg.skip /
 cfg.skipf in LangDyn).  TLC enumerates every program of the `capture` profile (a function that
 reads / conditionally writes a captured variable, overwrites that are dead unless the callee
-reads them, code after `return`), the `trap` profile (unread declarations whose right-hand side
+reads them, code after `return`), the `captureif` profile (stores and the calls that read them in different
+basic blocks), the `trap` profile (unread declarations whose right-hand side
 can fail at run time) and the `scope` profile, with the reference result of each.
 Binding: every program runs through the real pipeline with the frame arena on, WITHOUT and WITH
 the optimisation plan the real resolver produced for it.
@@ -26,6 +27,7 @@ import runner
 def profiles(tier):
     q = tier == "quick"
     return [("MCGenCap", {"MAXSTMTS": 4 if q else 5, "MAXDEPTH": 2, "EVENTS": 0}),
+            ("MCGenCapIf", {"MAXSTMTS": 4 if q else 5, "MAXDEPTH": 3, "EVENTS": 0}),
             ("MCGenTrap", {"MAXSTMTS": 3 if q else 4, "MAXDEPTH": 2, "EVENTS": 0}),
             ("MCGenScope", {"MAXSTMTS": 4 if q else 5, "MAXDEPTH": 3, "EVENTS": 0})]
 
